@@ -4,8 +4,8 @@ Copies an independently written seeded change from /tmp/mutwt/<prop>-out/<n> to 
 import json, os, re, shutil, sys
 prop, n, slug, initial, final, needs = sys.argv[1:7]
 note = sys.argv[7] if len(sys.argv) > 7 else ""
-src = "/tmp/mutwt/%s-out/%s" % (prop, n)
-ident = "A-%s-%s-%s" % (prop, n, slug)
+src = os.environ.get("MUTROOT", "/tmp/mutwt") + "/%s-out/%s" % (prop, n)
+ident = "A%s-%s-%s-%s" % (os.environ.get("MUTWAVE", ""), prop, n, slug)
 dst = "/verif/seeded/" + ident
 os.makedirs(dst, exist_ok=True)
 for f in os.listdir(src):
